@@ -46,4 +46,8 @@ Progress == [][Live =>
    \/ PhaseRank(v'.phase) > PhaseRank(v.phase)
    \/ (v'.phase = v.phase /\ v.vm.status = "run" /\ v'.vm.status # "run")
    \/ (v'.phase = v.phase /\ v.vm.status = "run" /\ v'.vm.status = "run" /\ v'.vm.pc > v.vm.pc)]_vars
+\* liveness proper (checked on the smaller instance MC_VMBytes_live.cfg): under weak fairness of the machine's own step
+\* every verification reaches a verdict
+LiveSpec == Init /\ [][Next]_vars /\ WF_vars(Next)
+Terminates == <>(v.phase = "done")
 =============================================================================
